@@ -146,7 +146,7 @@ def fuzz_campaign(seed, runs, jobs=16):
             os.makedirs(corpus)
             out = os.path.join(tmp, "out%d.json" % k)
             envv = dict(os.environ)
-            envv["PYTHONPATH"] = os.pathsep.join([core.ROOT, os.environ.get("VERIF_REPO", "/repo"), deps])
+            envv["PYTHONPATH"] = os.pathsep.join([core.ROOT, os.environ.get("VERIF_REPO", "/repo"), deps]) + core.COVPATH
             procs.append((out, subprocess.Popen(
                 [sys.executable, "-m", "harness.fuzz_c01", out, "-runs=%d" % runs, "-seed=%d" % (seed * 100 + k + 1),
                  "-max_len=2048", "-len_control=0", corpus], cwd=core.ROOT, env=envv, stdout=subprocess.DEVNULL, stderr=subprocess.DEVNULL)))
